@@ -734,10 +734,15 @@ func (tic *TermInCommittee) isViewChangeValid(expectedLeaderFromNewView primitiv
 	if !proofsvalidator.ValidatePreparedProof(tic.State.Height(), vcmView, preparedProof, tic.keyManager, tic.committeeMembers, func(view primitives.View) primitives.MemberId { return tic.calcLeaderMemberId(view) }) {
 		return fmt.Errorf("failed ValidatePreparedProof()")
 	}
+	if preparedProof != nil && len(preparedProof.Raw()) > 0 {
+		if preparedProof.PreprepareBlockRef().InstanceId() != header.InstanceId() || preparedProof.PrepareBlockRef().InstanceId() != header.InstanceId() {
+			return fmt.Errorf("prepared proof was signed for another instance")
+		}
+	}
 	return nil
 }
 
-func (tic *TermInCommittee) validateViewChangeVotes(targetBlockHeight primitives.BlockHeight, targetView primitives.View, confirmations []*protocol.ViewChangeMessageContent) error {
+func (tic *TermInCommittee) validateViewChangeVotes(targetInstanceId primitives.InstanceId, targetBlockHeight primitives.BlockHeight, targetView primitives.View, confirmations []*protocol.ViewChangeMessageContent) error {
 	senders := make([]primitives.MemberId, len(confirmations))
 	for i, confirmation := range confirmations {
 		senders[i] = confirmation.Sender().MemberId()
@@ -756,6 +761,10 @@ func (tic *TermInCommittee) validateViewChangeVotes(targetBlockHeight primitives
 		if confirmationBlockHeight != targetBlockHeight {
 			return fmt.Errorf("confirmation of memberId %s has block height %d which is different than targetBlockHeight %d ",
 				senderMemberIdStr, confirmationBlockHeight, targetBlockHeight)
+		}
+		if confirmation.SignedHeader().InstanceId() != targetInstanceId {
+			return fmt.Errorf("confirmation of memberId %s was signed for instance %s which is different than instance %s",
+				senderMemberIdStr, confirmation.SignedHeader().InstanceId(), targetInstanceId)
 		}
 		confirmationView := confirmation.SignedHeader().View()
 		if confirmationView != targetView {
@@ -817,7 +826,7 @@ func (tic *TermInCommittee) HandleNewView(nvm *interfaces.NewViewMessage) {
 		return
 	}
 
-	if err := tic.validateViewChangeVotes(nvmHeader.BlockHeight(), nvmHeader.View(), viewChangeConfirmations); err != nil {
+	if err := tic.validateViewChangeVotes(nvmHeader.InstanceId(), nvmHeader.BlockHeight(), nvmHeader.View(), viewChangeConfirmations); err != nil {
 		//this.logger.log({ subject: "Warning", message: `blockHeight:[${blockHeight}], view:[${view}], HandleNewView from "${senderId}", votes is invalid` });
 		tic.logger.Info("LHMSG RECEIVED NEW_VIEW IGNORE - validateViewChangeVotes failed: %s", err)
 		return
@@ -834,6 +843,11 @@ func (tic *TermInCommittee) HandleNewView(nvm *interfaces.NewViewMessage) {
 	if !ppMessageContent.SignedHeader().BlockHeight().Equal(nvmHeader.BlockHeight()) {
 		//this.logger.log({ subject: "Warning", message: `blockHeight:[${blockHeight}], view:[${view}], HandleNewView from "${senderId}", blockHeight doesn't match PP.Block()Height` });
 		tic.logger.Info("LHMSG RECEIVED NEW_VIEW IGNORE - NewView.BlockHeight and NewView.Preprepare.BlockHeight do not match")
+		return
+	}
+
+	if ppMessageContent.SignedHeader().InstanceId() != nvmHeader.InstanceId() {
+		tic.logger.Info("LHMSG RECEIVED NEW_VIEW IGNORE - NewView.Preprepare was signed for another instance")
 		return
 	}
 
